@@ -102,6 +102,18 @@ def edits(rng, j, tag):
             l = k['annotations'][i]; m = list(re.finditer(r'0x([0-9a-f]+)', l))[-1]
             k['annotations'][i] = l[:m.start(1)] + 'zz' + l[m.start(1) + 2:]
         out.append(E(f'{cname}-badhex', badhex, 'err'))
+        # LEXICAL variants of one value (a random element of a list, not only the last one): the number written is the same, so the
+        # converted proof must be the same (or the file is refused) — never a value cut at the first character a lexer dislikes
+        def relex(k, f, i=i):
+            l = k['annotations'][i]; head, _, tail = l.rpartition('(')
+            ms = list(re.finditer(r'0x([0-9a-f]+)', tail)); m = ms[rng.below(len(ms))]
+            k['annotations'][i] = head + '(' + tail[:m.start(1)] + f(m.group(1)) + tail[m.end(1):]
+        def upper_tail(h):      # keep the first digit, upper-case the rest (needs a letter there: rotate a value's digits is not allowed, so force one)
+            return h[0] + h[1:].upper()
+        out.append(E(f'{cname}-lex-upper-tail', lambda k: relex(k, upper_tail), 'any'))
+        out.append(E(f'{cname}-lex-upper-all', lambda k: relex(k, str.upper), 'any'))
+        out.append(E(f'{cname}-lex-leading-zeros', lambda k: relex(k, lambda h: '000' + h), 'any'))
+        out.append(E(f'{cname}-lex-mid-upper', lambda k: relex(k, lambda h: h[:len(h) // 2] + h[len(h) // 2:].upper()), 'any'))
     hs = ann_idx(j, CLASSES['trace0-hash']); ds = ann_idx(j, r'P->V.*Layer 0/Virtual Oracle/Trace 0: .*Data\(')
     if hs and ds:
         out.append(E('hash-before-data', lambda k: k['annotations'].insert(ds[0], k['annotations'].pop(hs[-1])), 'err'))
@@ -115,6 +127,8 @@ def edits(rng, j, tag):
     out.append(E('segment-missing', lambda k: k['public_input']['memory_segments'].pop('output'), 'ok'))
     out.append(E('memory-badhex', lambda k: k['public_input']['public_memory'][3].__setitem__('value', '0xzz'), 'err'))
     out.append(E('memory-badhex-page1', lambda k: (k['public_input']['public_memory'][3].__setitem__('value', 'nothex'), k['public_input']['public_memory'][3].__setitem__('page', 1)), 'err'))
+    out.append(E('memory-value-lex-upper', lambda k: [e.__setitem__('value', e['value'][:3] + e['value'][3:].upper()) for e in k['public_input']['public_memory']], 'any'))
+    out.append(E('memory-value-lex-leading-zeros', lambda k: [e.__setitem__('value', '0x00' + e['value'][2:]) for e in k['public_input']['public_memory'][:8]], 'any'))
     out.append(E('memory-value-ge-P', lambda k: k['public_input']['public_memory'][3].__setitem__('value', hex(P + 5))))
     out.append(E('memory-empty', lambda k: k['public_input'].__setitem__('public_memory', []), 'err'))
     # a well-formed continuous page (consecutive addresses) in the MIDDLE / at the END of the public memory: the main page is
@@ -238,7 +252,8 @@ def disagreement(c, co, mo):
         return None                      # reported by the oracle
     if co[0] == 'err' and mo[0] == 'ok':
         # the real parser validates data that never reaches the verifier (continuous pages, number of V->P interaction lines)
-        return None if ('nonconsecutive' in kind) else {'key': 'rejects:' + kind, 'what': f"the real parser rejects a file the format accepts ({c['name']})"}
+        # a lexical variant Stone never writes (upper-case digits, leading zeros) may be refused; it must never convert to another number
+        return None if ('nonconsecutive' in kind or 'lex-' in kind) else {'key': 'rejects:' + kind, 'what': f"the real parser rejects a file the format accepts ({c['name']})"}
     if co[0] == 'ok' and mo[0] == 'err':
         for suffix, key in LENIENT.items():
             if kind.endswith(suffix):
